@@ -212,6 +212,25 @@ def rule_take_once(ctx, cfg, F, D):
                         R.ok("%s: region moved out of its slot" % f.path, f.loc(b, si), cfg)
                     else:
                         R.violate("%s:region:slot-not-consumed" % strip_generics(f.path), "the region handed to the program is not moved out of its table slot", f.path, f.loc(b, si), config=cfg)
+    # ... and the value built for the program holds `Some(region taken)` or nothing at all (the sentinel): never the raw result of the slot lookup, for which
+    # "no such slot / already used" would silently become an empty region
+    from vlib.flow import Expr, expr_strip_blocks, expr_str
+    for p in sorted(D):
+        f = D[p]
+        if f.impl_trait != "serde::Deserialize" or "IpcSharedMemory" not in f.impl_self:
+            continue
+        ex = Expr(f)
+        for b in sorted(f.live_blocks()):
+            if f.is_cleanup(b):
+                continue
+            for si, st in enumerate(f.stmts(b)):
+                if st["s"] == "assign" and st["rv"]["r"] == "agg" and st["rv"]["kind"].get("adt") == "ipc::IpcSharedMemory" and st["rv"]["a"]:
+                    e = expr_strip_blocks(ex.of_operand(st["rv"]["a"][0]))
+                    if (e[0] == "agg" and e[1].endswith("Option::Some")) or (e[0] == "agg" and e[1].endswith("Option::None")) or e[0] == "const":
+                        R.ok("%s: the region field is Some(taken region) or the empty value" % f.path, f.loc(b, si), cfg)
+                    else:
+                        R.violate("%s:region:lookup-result-unchecked" % strip_generics(f.path), "the deserialised value wraps the result of the slot lookup as it is (%s): a missing or already used slot decodes to an empty region instead of an error" % expr_str(e)[:80],
+                                  f.path, f.loc(b, si), config=cfg)
     R.count("conversion_sites[%s]" % cfg, n)
 
 
